@@ -73,7 +73,7 @@ def gen_cases(rng: random.Random, tier: str):
               ['S', ['T', 1], ['S', ['P', 2], ['T', 1]]]]
     for t in shapes:
         ws = workers_of(t)
-        picks = ws if big else [ws[-1], rng.choice(ws)]
+        picks = ws if big else [rng.choice(ws)]
         for f in dict.fromkeys(picks):
             cases.append(mk(t, f, 'start-fail', n=4, cap=8))
     # (b) abandoned stream whose pending inputs exceed the pipe buffer (F12 class), one worker per servlet
@@ -91,7 +91,8 @@ def gen_cases(rng: random.Random, tier: str):
     # (d'') F19-like remainder: switch members share the output queue
     cases.append(mk(['W', ['P', 1], ['P', 1]], None, 'switch-big-results', n=60, out_kb=50, delay_ms=5, cap=64))
     # (e) small workloads on assorted shapes (exit, re-enter, serve again)
-    for t in [['E', ['P', 1], ['P', 2]], ['W', ['P', 1], ['T', 1]], ['S', ['P', 2], ['E', ['T', 1], ['P', 1]]]]:
+    small = [['E', ['P', 1], ['P', 2]], ['W', ['P', 1], ['T', 1]], ['S', ['P', 2], ['E', ['T', 1], ['P', 1]]]]
+    for t in (small if big else rng.sample(small, 2)):
         cases.append(mk(t, None, 'small', n=rng.choice([3, 6, 10]), cap=8, stop_after=rng.choice([1, 2, 100])))
     if big:
         for _ in range(12):
